@@ -265,7 +265,9 @@ def main():
 
     def sweeps(lo, hi, opts):
         seeds = [seed_for(base, 500_000 + i) for i in range(lo, hi)]
-        tasks = [("sweep", prop, [s], dict(opts, profile={"length": 0})) for s in seeds]
+        # every other swept history is built around big parallel requests (pool chunks, zombie workers)
+        tasks = [("sweep", prop, [s], dict(opts, profile=({"big_requests": True, "parallel": True} if j % 2 else {})))
+                 for j, s in enumerate(seeds)]
         for r in run_parallel(tasks, workers):
             agg.merge(r)
 
@@ -363,6 +365,7 @@ def main():
             "faults_planned": dict(agg.planned), "faults_fired": dict(agg.fired),
             "crashes": agg.c["crashes"], "torn_write_crashes": agg.c["torn_write_crashes"],
             "sweep_crash_points": agg.c["sweep_crash_points"], "sweep_fault_positions": agg.c["sweep_fault_positions"],
+            "sweep_zombie_schedules": agg.c["sweep_zombie_schedules"],
             "backward_clock_steps": agg.c["backward_clock_steps"],
             "requests_with_zombie_worker_alive": agg.c["zombie_ops"],
             "runs_with_2plus_live_actors": agg.c["max_live_ge2"],
